@@ -180,6 +180,72 @@ type Project struct {
 	OtherFields []string `json:"otherFields,omitempty"` // extra field ids mixed into the schedule files (noise of other fields)
 	ExtraArgs []string  `json:"extraArgs,omitempty"`
 	Arms     []string   `json:"arms,omitempty"` // generator arms used (for the evidence)
+	UserCrops map[string]string `json:"userCrops,omitempty"` // user-defined crop code -> shipped crop whose parameters it copies
+}
+
+// UseCropCode renames the shipped crop base to the user-defined code in the rotation (not the preceding crop of entry 0);
+// Write() provides the parameter files and table rows of the code as copies of the base crop's.
+func (p *Project) UseCropCode(base, code string) {
+	used := false
+	for i := range p.Rotation {
+		if i > 0 && p.Rotation[i].Crop == base {
+			p.Rotation[i].Crop = code
+			used = true
+		}
+	}
+	if used {
+		if p.UserCrops == nil {
+			p.UserCrops = map[string]string{}
+		}
+		p.UserCrops[code] = base
+	}
+}
+
+// BaseCrop maps a user-defined crop code to the shipped crop it copies.
+func (p *Project) BaseCrop(code string) string {
+	if b, ok := p.UserCrops[code]; ok {
+		return b
+	}
+	return code
+}
+
+// writeUserCrops adds PARAM.<code>(.yml) and the rows of CROP_N.TXT / EVAPO.HAU for every user-defined code.
+func (p *Project) writeUserCrops(pdst string) error {
+	for code, base := range p.UserCrops {
+		for _, ext := range []string{"", ".yml"} {
+			b, err := os.ReadFile(filepath.Join(pdst, "PARAM."+base+ext))
+			if err != nil {
+				return err
+			}
+			if err := os.WriteFile(filepath.Join(pdst, "PARAM."+code+ext), b, 0644); err != nil {
+				return err
+			}
+		}
+		for _, tbl := range []string{"CROP_N.TXT", "EVAPO.HAU"} {
+			b, err := os.ReadFile(filepath.Join(pdst, tbl))
+			if err != nil {
+				return err
+			}
+			lines := strings.Split(strings.ReplaceAll(string(b), "\r\n", "\n"), "\n")
+			have, row := false, ""
+			for _, ln := range lines {
+				f := strings.Fields(ln)
+				if len(f) > 0 && f[0] == code {
+					have = true
+				}
+				if len(f) > 0 && f[0] == base && row == "" {
+					row = fmt.Sprintf("%-3s", code) + ln[3:]
+				}
+			}
+			if !have && row != "" {
+				txt := strings.TrimRight(string(b), "\r\n") + "\n" + row + "\n"
+				if err := os.WriteFile(filepath.Join(pdst, tbl), []byte(txt), 0644); err != nil {
+					return err
+				}
+			}
+		}
+	}
+	return nil
 }
 
 // Args returns the batch line arguments of the project.
@@ -352,6 +418,9 @@ func (p *Project) Write(root, paramSrc string) error {
 			return err
 		}
 	}
+	if err := p.writeUserCrops(pdst); err != nil {
+		return err
+	}
 	return p.WriteWeather(root)
 }
 
@@ -412,9 +481,13 @@ func (p *Project) SoilCSV() string {
 	if bulk {
 		sb.WriteString("901,1.00,XX9,20,3,,00,10,00,10,01,,,,,,,00,0.0,99\n")
 		sb.WriteString("902,1.00,SL3,20,3,,00,10,00,10,01,,,60,50,20,10,00,0.0,99\n")
+		sb.WriteString("903,1.00,SL3,03,3,,00,10,00,10,02,,,,,,,00,0.0,99\n")
+		sb.WriteString("903,0.50,XX9,20,3,,00,10,00,,,,,,,,,00,0.0,99\n")
 	} else {
 		sb.WriteString("901,1.00,XX9,20,3,00,10,00,10,01,,,,,,,00,0.0,99\n")
 		sb.WriteString("902,1.00,SL3,20,3,00,10,00,10,01,,,60,50,20,10,00,0.0,99\n")
+		sb.WriteString("903,1.00,SL3,03,3,00,10,00,10,02,,,,,,,00,0.0,99\n")
+		sb.WriteString("903,0.50,XX9,20,3,00,10,00,,,,,,,,,00,0.0,99\n")
 	}
 	for i, h := range s.Horizons {
 		opt := func(v int) string {
@@ -703,7 +776,9 @@ func (p *Project) AutomanRows() []AutoRow {
 	for _, r := range p.Rotation {
 		if !seen[r.Crop] {
 			seen[r.Crop] = true
-			rows = append(rows, DefaultAutoRow(r.Crop))
+			row := DefaultAutoRow(p.BaseCrop(r.Crop))
+			row.Crop = r.Crop
+			rows = append(rows, row)
 		}
 	}
 	return rows
